@@ -39,7 +39,7 @@ fn run(n: usize) {
     pk.insert(0, vec![b0]);
     pk.insert(1, vec![b1, b2]);
     let cur: usize = if kani::any() { AUTHORIZER } else { any_block() };
-    let scopes_arr: [Scope; 3] = [any_scope(), any_scope(), any_scope()];
+    let scopes_arr: [Scope; 4] = [any_scope(), any_scope(), any_scope(), any_scope()];
     let scopes = &scopes_arr[..n];
     // the defaults handed in by the callers: TrustedOrigins::default() or the block's own set
     let default = TrustedOrigins::default();
@@ -191,3 +191,4 @@ inh!(c04_scope_block2_rule0, 2, 0);
 inh!(c04_scope_block1_rule1, 1, 1);
 inh!(c04_scope_block2_rule2, 2, 2);
 inh!(c04_scope_block0_rule2, 0, 2);
+trust!(c03_trust_scopes4, 4);
